@@ -75,6 +75,30 @@ def check(tier, seed):
         for i, (a, b) in enumerate(zip(res, out_fresh)):
             if a.raw != b:
                 diffs.append(i)
+    # documents that live in several files (include directives): the two builds through a2lfile::load + write
+    inc_diffs, n_inc = [], 0
+    if fresh:
+        from checks import inclib, c16
+        icases = inclib.gen_split_cases(rng, 40 if tier == 'quick' else 600)
+        ilines = [sx.enc(list(c16.loadinc_line(c))) for c in icases]
+        n_inc = len(ilines)
+        out_a = fw.run_isolating([impl, 'LOADINC'], ilines, single_timeout=60)
+        out_b = fw.run_isolating([fresh, 'LOADINC'], ilines, single_timeout=60)
+        inclib.cleanup_tmp()
+
+        def _canon(line):
+            if line is None or line.startswith('DIED'):
+                return line
+            a = sx.dec(line)
+            d = a[-1] if isinstance(a[-1], (bytes, bytearray)) else b''
+            return c16.strip_dir(a, bytes(d))[:-1] if d else a
+        for i, (x, y) in enumerate(zip(out_a, out_b)):
+            cx, cy = _canon(x), _canon(y)
+            if cx != cy:
+                what = 'several files'
+                if isinstance(cx, list) and isinstance(cy, list) and cx and cy and cx[0] == cy[0] == b'OK':
+                    what = 'model' if cx[1] != cy[1] else 'diagnostics' if cx[2] != cy[2] else 'written text' if cx[3] != cy[3] else 'other'
+                inc_diffs.append((i, what))
     mism = []
     if model_exe:
         mout, _ = loadlib.run_model(tuples, res, model_exe)
@@ -90,7 +114,8 @@ def check(tier, seed):
         'rule': RULE, 'samples': [tuples[0][0][:300]],
         'programs': 2, 'disagreements_checked': len(diffs),
         'traces_validated_against_impl': len(tuples) - len(mism) if model_exe else 0,
-        'correspondence_mismatches': len(mism), 'fresh_vs_shipped_differences': len(diffs),
+        'correspondence_mismatches': len(mism), 'fresh_vs_shipped_differences': len(diffs) + len(inc_diffs),
+        'multi_file_documents_compared': n_inc,
         'correspondence_wall_s': round(time.time() - t1, 1), 'input_distribution': {'status': status},
         'trusted_base': ['the fresh build: copy of /repo with specification.rs := specification_orig.rs and a2lmacros taken from the in-tree path; rustc / cargo',
                          'translators, float oracle and extraction as in C01'],
@@ -115,6 +140,13 @@ def check(tier, seed):
         v.violation('input', {'kind': 'LOAD', 'case': lines[i], 'text': tuples[i][0], 'strict': tuples[i][1],
                               'why': 'the shipped code and the fresh expansion behave differently: ' + what,
                               'stage': 'W (differential of the two builds)'})
+    elif inc_diffs:
+        i, what = inc_diffs[0]
+        c = icases[i]
+        v.violation('input', {'kind': 'INCL', 'files': {p_: (t_ if isinstance(t_, str) else (t_ or b'').decode('utf-8', 'replace')) for p_, t_ in c['files'].items()},
+                              'main': c['main'], 'strict': c['strict'], 'label': c.get('label'),
+                              'why': 'the shipped code and the fresh expansion behave differently on a document split into include files: ' + what,
+                              'stage': 'W (differential of the two builds, a2lfile::load + write)'})
     else:
         if not t_info.get('ok', True):
             v.violation('translate', {'stage': 'T', 'broken': t_info.get('what'), 'detail': t_info.get('detail')}, no_input=True)
@@ -135,6 +167,25 @@ def check(tier, seed):
 def replay(r):
     impl = fw.build_harness()
     fresh = fw.build_fresh_harness()
+    if r.get('kind') == 'INCL':
+        from checks import inclib, c16
+        case = dict(files=r['files'], main=r['main'], strict=r['strict'])
+        line = sx.enc(list(c16.loadinc_line(case)))
+        outs = []
+        for exe in (impl, fresh):
+            o = fw.run_single([exe, 'LOADINC'], line, timeout=120)
+            a = sx.dec(o) if o and not o.startswith('DIED') else o
+            if isinstance(a, list) and isinstance(a[-1], (bytes, bytearray)):
+                a = c16.strip_dir(a, bytes(a[-1]))[:-1]
+            outs.append(a)
+        inclib.cleanup_tmp()
+        for p_, t_ in sorted(r['files'].items()):
+            print('--- %s\n%s' % (p_, (t_ or '')[:800]))
+        print('oracle:', 'the two builds differ' if outs[0] != outs[1] else 'identical')
+        if outs[0] != outs[1] and isinstance(outs[0], list) and isinstance(outs[1], list) and len(outs[0]) > 3 and len(outs[1]) > 3:
+            print('written by the shipped build:\n', bytes(outs[0][3]).decode('utf-8', 'replace')[:1500])
+            print('written by the fresh build:\n', bytes(outs[1][3]).decode('utf-8', 'replace')[:1500])
+        return 1 if outs[0] != outs[1] else 0
     a = fw.run_single([impl, 'LOAD'], r['case'], timeout=120)
     b = fw.run_single([fresh, 'LOAD'], r['case'], timeout=120)
     print('shipped:', a[:400])
